@@ -44,7 +44,8 @@ def upper (b : Byte) : Byte := if 97 ≤ b && b ≤ 122 then b - 32 else b
 
 def classify (lit : Seq) : Tok :=
   if isInt64 lit then .num lit
-  else if lit.map upper == [83, 84, 79, 67, 75, 72, 79, 76, 77] then .stockholm lit
+  -- `switch strings.ToUpper(lit)`: rune-wise (U+017F folds into `S`); on an ASCII literal it is `lit.map upper`
+  else if Utf8.upperLit lit == [83, 84, 79, 67, 75, 72, 79, 76, 77] then .stockholm lit
   else if lit == [47, 47] then .endTok lit
   else .ident lit
 
@@ -131,10 +132,10 @@ def parse (stopsAtEof rejectsEmpty : Bool) (o : POpts) (bs : Seq) : Outcome Aln 
     | _ => .error
   | _ => .error
 
-/-- `Parse()` on the raw input, ALL byte strings; `none` = no claim (the input holds U+0131 / U+017F, which
-`strings.ToUpper` maps to `I` / `S` in the keyword test) -/
-def parseBytes (stopsAtEof rejectsEmpty : Bool) (o : POpts) (bs : Seq) : Option (Outcome Aln) :=
-  if Utf8.hasFoldRune bs then none else some (parse stopsAtEof rejectsEmpty o (Utf8.norm bs))
+/-- `Parse()` on the raw input, ALL byte strings (the keyword test of `classify` upper-cases rune-wise, so U+017F is
+covered: `# ſTOCKHOLM 1.0` is the header) -/
+def parseBytes (stopsAtEof rejectsEmpty : Bool) (o : POpts) (bs : Seq) : Outcome Aln :=
+  parse stopsAtEof rejectsEmpty o (Utf8.norm bs)
 
 /-! ### writer -/
 
